@@ -176,6 +176,7 @@ def generate(seed: int, tier: str) -> dict:
         scope_ok = len(dec.layers) <= 1 and not dec.shape.outer_kinds()
     n = rng.randint(1, 7 if tier == "quick" else 10)
     tag = (seed % 9000 + 1000) * 100
+    deleted: dict = {}  # id(model container) -> keys deleted from it so far
     for _ in range(n):
         if ops and rng.random() < 0.2:
             ops.append({"op": "restart"})
@@ -214,13 +215,19 @@ def generate(seed: int, tier: str) -> dict:
             continue
         keys = sorted(base.keys())
         if kind == "set":
-            k = rng.choice(keys) if keys and rng.random() < 0.5 else rng.choice(gen.FRESH[:4] + gen.NAMES)
+            gone = [x for x in deleted.get(id(base), []) if x not in base]
+            if gone and rng.random() < 0.4:
+                k = rng.choice(gone)  # assign a key again that was deleted earlier in this history
+            else:
+                k = rng.choice(keys) if keys and rng.random() < 0.5 else rng.choice(gen.FRESH[:4] + gen.NAMES)
             val = py_value(rng, tag)
             ops.append({"op": "set", "on": on, "keys": prefix + [k], "value": val})
             base[k] = tokens_of_python(val)
         elif kind == "del":
             k = rng.choice(keys) if keys and rng.random() < 0.8 else rng.choice(ABSENT)
             ops.append({"op": "del", "on": on, "keys": prefix + [k]})
+            if k in base:
+                deleted.setdefault(id(base), []).append(k)
             base.pop(k, None)
         else:
             k = rng.choice(keys) if keys and rng.random() < 0.7 else rng.choice(ABSENT)
